@@ -208,6 +208,16 @@ pub fn gen(opts: &Opts, rng: &mut Rng) -> Vec<HelloCase> {
         vec!["not a uri".into()],
         vec!["urn:ietf:params:netconf:capability:url:1.0".into(), "urn:ietf:params:netconf:base:1.0#frag".into(), "http://xml.juniper.net/netconf/junos/1.0?x".into()],
         vec!["urn:ietf:params:netconf:capability:candidate:1.0".into(), "urn:ietf:params:netconf:capability:candidate:1.0".into()],
+        // a known URI followed by an empty fragment / an empty query is not that URI
+        vec![
+            "urn:ietf:params:netconf:base:1.0#".into(),
+            "urn:ietf:params:netconf:base:1.1#".into(),
+        ],
+        vec![
+            "urn:ietf:params:netconf:base:1.0?".into(),
+            "urn:ietf:params:netconf:base:1.0?#".into(),
+            "urn:ietf:params:netconf:base:1.1?x".into(),
+        ],
         // near misses of the base capabilities: none of them is :base:1.0 / :base:1.1
         vec!["urn:ietf:params:netconf:base:1.00".into(), "urn:ietf:params:netconf:base:1.10".into(), "urn:ietf:params:netconf:base:1".into()],
         vec!["urn:ietf:params:netconf:base:1.0x".into(), "urn:ietf:params:netconf:base:1.1.0".into(), "urn:ietf:params:netconf:base:2.0".into()],
